@@ -4,7 +4,7 @@
    (inspect.Signature.bind on the signature without the injected parameters).  That pydantic lists exactly the model's
    fields with required = fields without default is an oracle assumption checked by the correspondence run on every case. *)
 From Coq Require Import ZArith List String Ascii Bool.
-From PJ Require Import Base.Json Base.Res Model.Bind Lemmas.BindL.
+From PJ Require Import Base.Json Base.Res Model.Bind Model.Validators Lemmas.BindL Lemmas.ExcludeL.
 Import ListNotations.
 
 (* the documented parameters are exactly the parameters the binder sees: the signature minus the injected parameter *)
@@ -24,6 +24,16 @@ Theorem C17_sound_and_complete : forall s d, simple_sig s = true -> names_distin
   ((exists kw, sig_bind_kw s d = Some kw) <->
    ((forall n, In n (keys d) -> In n (names s)) /\ (forall p, In p s -> pdef p = false -> In (pname p) (keys d)))).
 Proof. exact mapping_binds_iff. Qed.
+(* with ANY set of injected / excluded names (context parameter, view instance, the exclusion predicate's choice): the documents
+   list exactly the signature the binder uses, and a params object is accepted IFF it stays within the documented names and
+   covers the documented required ones *)
+Theorem C17_names_general : forall s excl, simple_sig s = true -> documented s excl = sig_exclude_all excl s.
+Proof. exact documented_is_bound_sig. Qed.
+Theorem C17_sound_and_complete_general : forall s excl d, simple_sig s = true -> names_distinct s = true ->
+  ((exists kw, sig_bind_kw (sig_exclude_all excl s) d = Some kw) <->
+   ((forall n, In n (keys d) -> In n (documented_names s excl))
+    /\ (forall r, In r (documented_required s excl) -> In r (keys d)))).
+Proof. exact documented_binds_iff. Qed.
 (* and when it binds, the dispatcher's verdict is the direct call's (C04) *)
 Theorem C17_then_runs : forall s cm ctx p,
   simple_sig s = true -> names_distinct s = true -> ctx_ok s cm -> params_wf p ->
